@@ -381,4 +381,6 @@ def build():
     F.extend(c08_fams2.build(torch))
     from harness import c08_fams3
     F.extend(c08_fams3.build(torch))
+    from harness import c08_fams4
+    F.extend(c08_fams4.build(torch))
     return F
